@@ -143,17 +143,16 @@ func newInterp(p *pkg) *interp {
 }
 
 type frame struct {
-	vars   map[string]*cell
-	fn     *ast.FuncDecl
-	noLets bool
-	scope  int // nesting depth of the block being executed
+	vars  map[string]*cell
+	fn    *ast.FuncDecl
+	scope int // nesting depth of the block being executed
 }
 
 func newFrame(fn *ast.FuncDecl) *frame { return &frame{vars: map[string]*cell{}, fn: fn} }
 
 // clone copies every cell (and the mutable objects in it), preserving aliasing between cells.
 func (fr *frame) clone() *frame {
-	c := &frame{vars: map[string]*cell{}, fn: fr.fn, noLets: fr.noLets, scope: fr.scope + 1}
+	c := &frame{vars: map[string]*cell{}, fn: fr.fn, scope: fr.scope + 1}
 	cm := map[*cell]*cell{}
 	pm := map[*poly]*poly{}
 	var cpCell func(x *cell) *cell
@@ -1294,7 +1293,6 @@ func (in *interp) callFuncVals(e *ast.CallExpr, fd *ast.FuncDecl, recv *val, arg
 		return nil, in.errf(e, "function %s has no body", fd.Name.Name)
 	}
 	nf := newFrame(fd)
-	nf.noLets = true
 	if fd.Recv != nil && len(fd.Recv.List) == 1 && len(fd.Recv.List[0].Names) == 1 {
 		nf.vars[fd.Recv.List[0].Names[0].Name] = &cell{v: recv}
 	}
